@@ -320,7 +320,7 @@ def harnesses(tier: str) -> List[H]:
             params += [B("ta_inv"), B("ts_inv")]
             defaults = {"a_on": a_on, "nsteps": nsteps, "k0": k0, "ta_pre": True, "ta_post": True, "tf_pre": True,
                         "ts_pre": True}  # type: Dict[str, Any]
-            if tier == "thorough":
+            if tier == "thorough" and a_on == 0:
                 params += [B("ta_pre"), B("ts_pre")]
             for i in range(nsteps, 4):
                 defaults.update({"k%d" % i: 0, "j%d" % i: 0, "c%d" % i: 0})
